@@ -63,6 +63,31 @@ pub fn panic_class(msg: &str) -> String {
     format!("{}:{}", file, words.join("_"))
 }
 
+#[repr(align(32))]
+#[derive(Clone, Copy)]
+struct Poison32([u8; 32]);
+
+/// Dirty the allocator's free lists: allocate 32-byte-aligned blocks of the sizes the library's
+/// matrices use, fill them with 0xA5 and free them, so that a later allocation which the code under
+/// test forgets to initialise shows 0xA5A5.. instead of whatever a fresh process happens to have
+/// (usually zeros). This makes "exposes uninitialised / stale memory" defects reproducible when a
+/// history is replayed alone in a fresh process.
+pub fn poison_heap() {
+    // More than 7 blocks per size: glibc keeps the first 7 freed blocks of a size class in the
+    // thread cache, which aligned allocations (posix_memalign, used for 32-byte aligned rows) do
+    // not consult; the others go to the bins / are merged into the top of the heap, where aligned
+    // allocations are carved from.
+    const ROWS: [usize; 9] = [1, 2, 3, 4, 5, 8, 9, 12, 16];
+    let mut keep: Vec<Vec<Poison32>> = Vec::with_capacity(ROWS.len() * 10);
+    for &r in ROWS.iter() {
+        for _ in 0..10 {
+            keep.push(vec![Poison32([0xA5; 32]); r + 2]);
+        }
+    }
+    std::hint::black_box(&keep);
+    drop(keep);
+}
+
 /// 64-bit FNV-1a.
 pub fn fnv1a(bytes: &[u8]) -> u64 {
     let mut h: u64 = 0xcbf29ce484222325;
